@@ -27,7 +27,7 @@ Theorem C01_decode_map : forall f name l rest fuel,
   run_flat (Decode f (dec_map fuel)) (doc f name (TCompound l) ++ rest)
   = FOk (root_name f name, value_of (TCompound l)) rest.
 Proof.
-  intros. apply Decode_doc; auto with rb. now apply (dec_any_conforms (TCompound l)).
+  intros. apply Decode_doc; auto with rb. now apply dec_map_conforms.
 Qed.
 
 (* unknown fields are skipped with rawRead: exactly the skipped value is consumed, at any nesting *)
@@ -174,3 +174,9 @@ Proof. exact decoder_robust_translated. Qed.
 
 Print Assumptions C01_decode_exact_translated.
 Print Assumptions C01_decoder_robust_translated.
+
+(* phase 5: the binary -> SNBT converter generated from the source consumes exactly a well-formed value *)
+Theorem C01_encode_exact_translated : forall t, wf t -> forall fuel dep rest, (length (payload t) < fuel)%nat -> depth t <= dep ->
+  run_flat (gen_text fuel dep (tag_id t)) (payload t ++ rest) = FOk tt rest.
+Proof. exact encode_exact_translated. Qed.
+Print Assumptions C01_encode_exact_translated.
